@@ -120,7 +120,7 @@ PROPS['C07'] = {
 }
 
 PROPS['C10'] = {
-    'units': ['rename', 'lists', 'unify', 'functions'],
+    'units': ['rename', 'lists', 'unify', 'functions', 'solver_ids', 'solutions_ids', 'compare', 'listops'],
     'functions': ['unifiable.rs::Unifiable::recreate_variables', 'unifiable.rs::recreate_vars_terms', 'unifiable.rs::recreate_vars_goals',
                   'goal.rs::Goal::recreate_variables', 'operator.rs::Operator::recreate_variables',
                   'built_in_predicates.rs::BuiltInPredicate::recreate_variables', 'built_in_predicates.rs::BuiltInPredicate::new',
@@ -128,11 +128,12 @@ PROPS['C10'] = {
                   'knowledge_base.rs::get_rule', 's_complex.rs::make_query', 's_complex.rs::make_complex'],
     'kani': {'quick': ['c10_counter_contract'], 'thorough': []},
     'oracles': {'knowledge_base.rs::get_rule': 'c10_clause', 's_complex.rs::make_query': 'c10_clause', 's_complex.rs::make_complex': 'c10_clause',
-                'rule.rs::Rule::recreate_variables': 'c10_clause', '*': 'c10_rename'},
+                'rule.rs::Rule::recreate_variables': 'c10_clause', '*': 'c10_rename',
+                '#ids_kept': 'c01_prog', '#ids_inv': 'c01_prog', '#pre_ids': 'c01_prog', '#rewind_is_sound': 'c01_prog', '#fresh_for_the_search': 'c01_prog',
+                '#nothing_kept_from_a_failed_clause': 'c01_prog', '#ids_released_only_after_failed_unification': 'c01_prog'},
     'not_covered': [
-        'PROVED since 8.30: the ids handed out by one use of a clause or query all lie above the value the id counter had when the use began and up to its value when it ended (#ids_fresh, through the whole renaming family; get_rule: `all_fresh`), the counter being modelled as ghost state that next_id moves up by one (T9; Kani harness c10_counter_contract checks next_id itself); unify introduces no id of its own (#no_new_ids). NOT proved: that the search rewinds the counter only when the ids given back are referenced by nothing (8.29) - the last link of "no fresh variable is in use elsewhere in the current search"',
+        'PROVED since 8.30: the ids handed out by one use of a clause or query all lie above the value the id counter had when the use began and up to its value when it ended (#ids_fresh, through the whole renaming family; get_rule: `all_fresh`), the counter being modelled as ghost state that next_id moves up by one (T9; Kani harness c10_counter_contract checks next_id itself); unify introduces no id of its own (#no_new_ids). PROVED since 8.36 (unit solver_ids, overlay contracts contracts/*+ids.vc on the verbatim bodies of next_solution, next_solution_and, next_solution_or, next_solution_bip, make_solution_node, make_base_node, set_head_node, over the node heap with the counter as its ghost field `ids`): every variable id referenced from the search state - the goal, the remaining operands and the bindings of every solution node - is at most the counter, before and after every request (ids_ok; #ids_kept, #ids_inv), and so is every answer returned; so the ids get_rule hands out (above the counter as it was: #ids_interval, proved in unit rename) are in use nowhere else in the search, and the rewinding of the counter after a failed head unification gives back ids nothing refers to (#rewind_is_sound). RELATIVE TO, stated as assumptions: unify\'s and get_rule\'s own preconditions at the solver\'s call sites (well-formed terms, acyclic bindings, the predicate exists: the invariants of C08 / C15 are not carried through the search), append, functor, include and exclude introduce no variable of their own (clause #no_new_ids of their stubs in solver_ids, not proved in their units; for the five comparisons and count it IS proved, units compare and listops), and the query was built in the current counter epoch (make_query, #ids_fresh). Answers already handed to the caller are outside the search state',
         "'different names get different ids' and 'no fresh variable is in use elsewhere': ids come from next_id(); its counter contract (successive, non-zero, increasing) is proved by Kani, the composition with the map invariant is not machine-checked",
-        'the fallback_id restore in the clause loop of next_solution (solver, outside reach)',
         'get_rule: which vector the HashMap returns for a &str key is vstd\'s uninterpreted maps_borrowed_key_to_value (no String/str key axiom in vstd); the contract says the result is the renamed index-th rule of that vector',
         'make_query: the static-mut reset in start_query is covered by C22 (Kani); parse_query\'s call establishes the wf_seq precondition (unit parsers: every parser returns well-formed terms)',
     ],
